@@ -443,7 +443,9 @@ Definition is_top (n : node) : bool := match n with Full _ | Short _ _ => true |
    behaviour DURING THAT STEP (serve by hash / fail the lookup / serve some other header), the content id and the decoded
    item.  The real StateValidator has no mutable state: its model state is unit, threaded through the steps so that the
    theorems say "the verdict of step i depends on step i's inputs only".  The storage state is the id -> value map. *)
-Record event : Type := { ev_header : bytes -> res bytes; ev_id : bytes; ev_req : request }.
+(* ev_store_ok = false: the backing store's Put fails during this step (e.g. ErrInsufficientRadius); state.Storage.Put logs
+   it and still returns nil, nothing is written *)
+Record event : Type := { ev_header : bytes -> res bytes; ev_id : bytes; ev_req : request; ev_store_ok : bool }.
 
 Definition vstate : Type := unit.                 (* fields of StateValidator that change between calls: none *)
 Definition store : Type := list (bytes * bytes).  (* content id -> stored value, latest first *)
@@ -469,7 +471,7 @@ Section History.
     | Ok _ =>
         let p := put node_hash (ev_req ev) in
         match p with
-        | Ok b => ((vs', store_put s (ev_id ev) b), (v, Some p))
+        | Ok b => ((vs', if ev_store_ok ev then store_put s (ev_id ev) b else s), (v, Some p))
         | _ => ((vs', s), (v, Some p))
         end
     | _ => ((vs', s), (v, None))
